@@ -177,7 +177,7 @@ Definition ec_compress_pub (pk : list N) : option (list N) :=
 (* The secp256k1 premise of the script theorems: on a fully valid uncompressed key, decompressing
    the compressed form gives the key back. *)
 Definition ec_premise (fully_valid : list N -> bool) (decompress : list N -> option (list N)) : Prop :=
-  forall pk c, length pk = 65%nat -> nth_error pk 0 = Some 4%N -> fully_valid pk = true ->
+  forall pk c, bytes_ok pk -> length pk = 65%nat -> nth_error pk 0 = Some 4%N -> fully_valid pk = true ->
     ec_compress_pub pk = Some c -> decompress c = Some pk.
 
 Section WithEC.
